@@ -124,3 +124,36 @@ func (n *noise) send(r *common.Rand, srv *drive.Srv) {
 		drive.ReadRow(srv.Data, n.table, key)
 	}
 }
+
+// sampleInvariant calls SampleRowKeys and checks it against the keys currently stored (rows that have at least one
+// cell, ascending): an ascending subsequence of them ending with the last one, non-decreasing non-negative offsets,
+// nothing for an empty table.
+func sampleInvariant(cl btpb.BigtableClient, name string, stored []string) (string, []string) {
+	st, keys, offs := drive.SampleRowKeys(cl, name)
+	isStored := map[string]bool{}
+	for _, k := range stored {
+		isStored[k] = true
+	}
+	switch {
+	case !st.OK():
+		return "SampleRowKeys failed: " + st.String(), keys
+	case len(stored) == 0 && len(keys) != 0:
+		return fmt.Sprintf("empty table sampled keys %q", keys), keys
+	case len(stored) > 0 && len(keys) == 0:
+		return "no sample for a non-empty table (the last key must be returned)", keys
+	case len(stored) > 0 && keys[len(keys)-1] != stored[len(stored)-1]:
+		return fmt.Sprintf("last sample %q is not the last stored key %q", keys[len(keys)-1], stored[len(stored)-1]), keys
+	}
+	for i := 0; i < len(keys); i++ {
+		if !isStored[keys[i]] {
+			return fmt.Sprintf("sampled key %q is not a stored row", keys[i]), keys
+		} else if i > 0 && keys[i] <= keys[i-1] {
+			return fmt.Sprintf("sampled keys not strictly ascending: %q then %q", keys[i-1], keys[i]), keys
+		} else if i > 0 && offs[i] < offs[i-1] {
+			return fmt.Sprintf("offsets decrease: %d then %d", offs[i-1], offs[i]), keys
+		} else if offs[i] < 0 {
+			return fmt.Sprintf("negative offset %d", offs[i]), keys
+		}
+	}
+	return "", keys
+}
